@@ -392,65 +392,92 @@ def u9(ctx, rid):
     c04.t12(ctx, rid)
 
 
+def _ts_side(f, o):
+    ogs = core.origins(f, o)
+    calls = [x for x in ogs if x.kind == 'call']
+    if calls and all(x.data.name == 'timestamp' for x in calls) and len(calls) == len(ogs):
+        return 'call'
+    if ogs and all(x.kind == 'arg' for x in ogs):
+        return 'arg'
+    return None
+
+
+def upper_bound_exits(prog, f):
+    """blocks entered when a position is known to be an upper bound of the equal-timestamp range: the false edge of
+    `elem.timestamp() <= new` / of `pos < len` in a skip loop, the return of partition_point / take_while / position with that
+    `<=` predicate"""
+    exits = []
+    for i, b in enumerate(f.blocks):
+        if b['c'] or i not in f.reachable():
+            continue
+        for st in b['s']:
+            if st['k'] != 'a' or st['r']['k'] != 'bin':
+                continue
+            r = st['r']
+            kind = None
+            if r['op'] == 'Le':
+                sa, sb = _ts_side(f, r['a']), _ts_side(f, r['b'])
+                if sa == 'call' and sb in ('call', 'arg'):
+                    kind = 'le'
+            elif r['op'] == 'Lt':
+                ob = [o for o in core.origins(f, r['b']) if o.kind == 'call']
+                if ob and all(o.data.name == 'len' for o in ob):
+                    kind = 'lt'
+            if not kind:
+                continue
+            carry = core.flows_forward(f, st['d'][0])
+            for j in f.reachable():
+                t = f.blocks[j]['t']
+                if t['k'] == 'switch' and op_local(t['o']) in carry:
+                    exits += [tg for v, tg in t['vals'] if v == 0]
+    for c in f.calls:
+        if c.name in ('partition_point', 'take_while', 'skip_while', 'position', 'rposition') and c.bb in f.reachable() and c.t['t'] is not None:
+            for a in c.args:
+                l = op_local(a)
+                if l is not None and f.locals[l].get('h') == 'closure':
+                    g = prog.fns.get(f.locals[l]['a'][0])
+                    if g is None:
+                        continue
+                    for b in g.blocks:
+                        for st in b['s']:
+                            if st['k'] == 'a' and st['r']['k'] == 'bin' and st['r']['op'] in ('Le', 'Ge'):
+                                oa = [o for o in core.origins(g, st['r']['a']) if o.kind == 'call']
+                                ob = [o for o in core.origins(g, st['r']['b']) if o.kind == 'call']
+                                elem = oa if st['r']['op'] == 'Le' else ob
+                                if not elem or not all(o.data.name == 'timestamp' for o in elem):
+                                    continue
+                                if all(any(x.kind == 'arg' for x in core.origins(g, o.data.args[0])) for o in elem):
+                                    exits.append(c.t['t'])
+    return exits
+
+
+def upper_bound_fn(prog, gid, depth=2):
+    """every return of the (non-async) function gid passes an upper-bound exit: its result is a valid insertion position"""
+    g = prog.fns.get(gid)
+    if g is None or g.is_coroutine:
+        return False
+    ex = upper_bound_exits(prog, g)
+    rets = [i for i in g.reachable() if g.blocks[i]['t']['k'] == 'return']
+    return bool(ex) and bool(rets) and not any(r in g.reach_from([0], avoid_enter=ex) for r in rets)
+
+
 def u10(ctx, rid):
     """"then append recency": a header whose timestamp equals existing ones is inserted behind all of them.  The position handed
     to Vec::insert in the in-memory index is an upper bound of the equal-timestamp range on every path: the insertion is only
     reached through the exit of a skip loop `while pos < len && v[pos].timestamp() <= new.timestamp()` (the false edge of the
-    `<=` on two timestamps or of `pos < len`), or right after a partition_point whose predicate is that `<=`."""
+    `<=` on two timestamps or of `pos < len`), or right after a partition_point / take_while with that `<=` predicate - in the
+    body or in a helper that computes the position."""
     prog = ctx.prog
     n = 0
     for f in prog.fns.values():
         if not (f.id.endswith('IndexTrait<K>>::push') and 'IndexStruct' in f.id):
             continue
         ins = [c for c in f.calls if c.name == 'insert' and c.path.startswith('std::vec::Vec') and c.bb in f.reachable()]
-        if not ins:
-            continue
-        exits = []
-        for i, b in enumerate(f.blocks):
-            if b['c'] or i not in f.reachable():
-                continue
-            for st in b['s']:
-                if st['k'] != 'a' or st['r']['k'] != 'bin':
-                    continue
-                r = st['r']
-                kind = None
-                if r['op'] == 'Le':
-                    oa = [o for o in core.origins(f, r['a']) if o.kind == 'call']
-                    ob = [o for o in core.origins(f, r['b']) if o.kind == 'call']
-                    if oa and ob and all(o.data.name == 'timestamp' for o in oa + ob):
-                        kind = 'le'
-                elif r['op'] == 'Lt':
-                    ob = [o for o in core.origins(f, r['b']) if o.kind == 'call']
-                    if ob and all(o.data.name == 'len' for o in ob):
-                        kind = 'lt'
-                if not kind:
-                    continue
-                carry = core.flows_forward(f, st['d'][0])
-                for j in f.reachable():
-                    t = f.blocks[j]['t']
-                    if t['k'] == 'switch' and op_local(t['o']) in carry:
-                        exits += [tg for v, tg in t['vals'] if v == 0]
-        # partition_point / take_while(..).count() / position with the predicate `x.timestamp() <= new.timestamp()`
+        exits = upper_bound_exits(prog, f)
+        # a helper of this crate that returns an upper-bound position
         for c in f.calls:
-            if c.name in ('partition_point', 'take_while', 'skip_while', 'position', 'rposition') and c.bb in f.reachable() and c.t['t'] is not None:
-                for a in c.args:
-                    l = op_local(a)
-                    if l is not None and f.locals[l].get('h') == 'closure':
-                        g = prog.fns.get(f.locals[l]['a'][0])
-                        if g is None:
-                            continue
-                        for b in g.blocks:
-                            for st in b['s']:
-                                if st['k'] == 'a' and st['r']['k'] == 'bin' and st['r']['op'] in ('Le', 'Ge'):
-                                    oa = [o for o in core.origins(g, st['r']['a']) if o.kind == 'call']
-                                    ob = [o for o in core.origins(g, st['r']['b']) if o.kind == 'call']
-                                    if not (oa and ob and all(o.data.name == 'timestamp' for o in oa + ob)):
-                                        continue
-                                    # element (closure parameter) <= new (captured)   or   new >= element
-                                    elem = oa if st['r']['op'] == 'Le' else ob
-                                    from_param = all(any(x.kind == 'arg' for x in core.origins(g, o.data.args[0])) for o in elem)
-                                    if from_param:
-                                        exits.append(c.t['t'])
+            if c.bb in f.reachable() and c.t['t'] is not None and any(t in prog.fns and upper_bound_fn(prog, t) for t in prog.resolve(c)):
+                exits.append(c.t['t'])
         for c in ins:
             n += 1
             key = 'equal-timestamps-append-behind|%s' % f.id
@@ -460,7 +487,7 @@ def u10(ctx, rid):
                 ctx.bad(rid, key, c.where(), 'the insertion position can reach Vec::insert without having been moved behind the records with an equal timestamp (no `v[pos].timestamp() <= new.timestamp()` skip on that path): a record written later with the same timestamp ranks before the earlier one',
                         witness=['bb%d %s' % (b, f.where(b)) for b in (f.path([0], [c.bb], avoid_enter=exits) or [])][-8:])
             else:
-                ctx.ok(rid, key, c.where(), 'every path to the insertion leaves the `<=` skip loop (or a `<=` partition_point)')
+                ctx.ok(rid, key, c.where(), 'every path to the insertion leaves the `<=` skip loop (or a `<=` partition_point / helper)')
     if n < 1:
         raise core.AnchorLost('Vec::insert in IndexStruct::push: %d' % n)
 
